@@ -1,6 +1,7 @@
 package c04
 
 import (
+	"math"
 	"math/rand"
 	"strings"
 	"time"
@@ -26,6 +27,8 @@ var (
 		Dur(-time.Second), Dur(0), Dur(time.Second), Dur(2 * time.Second),
 		Tim(0), Tim(61),
 		Missing,
+		// the rest of float64: NaN, the infinities, negative zero (only as scope values, they have no literal)
+		Flt(math.NaN()), Flt(math.Inf(1)), Flt(math.Inf(-1)), Flt(math.Copysign(0, -1)),
 	}
 	// a smaller domain with every type for the wider products
 	domainS = []V{Int(0), Int(2), Flt(0.5), Flt(2), Str("a"), Str("ab"), Str("1"), Bool(true), Bool(false), Dur(time.Second), Tim(61), Missing}
@@ -388,6 +391,86 @@ func Run(r *rt.Run) error {
 		}
 	}
 
+	// ---- N: NaN, +-Inf and -0 as arguments and as HISTORY of the stateful and the math built-ins ----
+	fcls := []V{Flt(math.NaN()), Flt(math.Inf(1)), Flt(math.Inf(-1)), Flt(math.Copysign(0, -1)), Flt(0), Flt(1), Flt(2.5), Flt(-1.5), Flt(-4)}
+	f1 := scopes1("a", fcls)
+	for _, n := range []*N{Call("spread", a), Call("sigma", a), Bin(">", Call("spread", a), Lit(Flt(1))), Bin(">", Call("sigma", a), Lit(Flt(0.5))),
+		Call("spread", Call("sqrt", a)), Call("sigma", Call("log", a)), Call("spread", Bin("/", a, a)), Call("spread", Bin("*", a, Lit(Flt(0)))),
+		Call("if", Bin(">", a, Lit(Flt(0))), cnt, Lit(Int(0))), Bin("*", Call("float", cnt), a), Bin("+", Call("spread", a), Call("sigma", a)),
+		Call("string", Call("spread", a)), Call("min", Call("spread", a), a), Lam(Call("spread", a)), Bin("==", Call("sigma", a), Call("sigma", a))} {
+		x.run(kase{n: n, entries: f1, runs: histories(len(f1), 3, 'E'), family: "special-floats"})
+		var two [][]step
+		for _, h := range histories(len(f1), 2, 'E') {
+			if len(h) == 2 {
+				two = append(two, []step{h[0], {h[1].k, 'E', 1}, h[1], {h[0].k, 'E', 1}}, []step{{h[0].k, 'F', 0}, {h[1].k, 'B', 0}, {h[1].k, 'F', 0}})
+			}
+		}
+		x.run(kase{n: n, entries: f1, runs: two, family: "special-floats"})
+	}
+	f2 := scopes2("a", "b", fcls, fcls, false)
+	for _, f := range []string{"min", "max", "mod"} {
+		runs, _ := longRuns(rnd, len(f2))
+		x.run(kase{n: Call(f, a, b), entries: f2, runs: runs[:2], pol: polTyped, family: "special-floats"})
+	}
+	for _, f := range []string{"abs", "floor", "ceil", "trunc", "sqrt", "log", "int", "float", "bool", "string", "isPresent"} {
+		runs, _ := longRuns(rnd, len(f1))
+		x.run(kase{n: Call(f, a), entries: f1, runs: runs[:2], pol: polTyped, family: "special-floats"})
+	}
+	for _, n := range []*N{Bin("*", a, Lit(Dur(time.Second))), Bin("*", Lit(Dur(time.Second)), a), Bin("/", Lit(Dur(time.Second)), a), Call("duration", a, Lit(Dur(time.Second))),
+		Bin(">", a, Lit(Int(1))), Bin("==", Lit(Int(1)), a), Un("-", a), Bin("+", a, Un("-", a))} {
+		runs, _ := longRuns(rnd, len(f1))
+		x.run(kase{n: n, entries: f1, runs: runs[:2], pol: polTyped, family: "special-floats"})
+	}
+
+	// ---- O: evaluation order: left before right, right not evaluated after a failing left, for every operator x operand type pair ----
+	// firstFails is an int that fails (division by zero) when it is the FIRST call of count() on the expression and is 1 when it is the second
+	firstFails := Bin("/", Lit(Int(1)), Bin("-", cnt, Lit(Int(1))))
+	failing := map[byte]*N{'i': firstFails, 'f': Call("float", firstFails), 's': Call("string", firstFails), 'b': Bin("==", firstFails, Lit(Int(1))),
+		'd': Call("duration", firstFails, Lit(Dur(time.Second)))}
+	counting := map[byte]*N{'i': cnt, 'f': Call("float", cnt), 's': Call("string", cnt), 'b': Bin(">", cnt, Lit(Int(0))), 'd': Call("duration", cnt, Lit(Dur(time.Second))),
+		'r': Lit(Rex("1"))}
+	plusTen := map[byte]*N{'i': Bin("+", cnt, Lit(Int(10))), 'f': Bin("+", Call("float", cnt), Lit(Flt(10))), 's': Bin("+", Call("string", cnt), Lit(Str("x"))),
+		'b': Bin("==", cnt, Lit(Int(1))), 'd': Call("duration", Bin("+", cnt, Lit(Int(10))), Lit(Dur(time.Second)))}
+	none := []entry{scopeEntry()}
+	orderRuns := [][]step{{{0, 'E', 0}, {0, 'E', 0}, {0, 'E', 0}}, {{0, 0, 0}, {0, 0, 0}, {0, 0, 0}}, {{0, 'E', 0}, {0, 'E', 1}, {0, 'E', 0}, {0, 'E', 1}}, {{0, 'B', 0}, {0, 'E', 0}, {0, 'T', 0}, {0, 'E', 0}}}
+	for _, ot := range opTable {
+		lt, rt := ot.l, ot.r
+		x.run(kase{n: Bin(ot.op, failing[lt], counting[rt]), entries: none, runs: orderRuns, pol: polTyped, family: "order"})
+		x.run(kase{n: Bin(ot.op, plusTen[lt], counting[rt]), entries: none, runs: orderRuns, pol: polTyped, family: "order"})
+	}
+	for _, n := range []*N{Call("if", Bin("==", firstFails, Lit(Int(1))), cnt, Lit(Int(0))), Call("min", Call("float", firstFails), Call("float", cnt)),
+		Call("strSubstring", Call("string", Bin("+", cnt, Lit(Int(10)))), firstFails, cnt), Call("duration", firstFails, Call("duration", cnt, Lit(Dur(time.Second)))),
+		Bin("*", Call("int", Lit(Str("s"))), Call("duration", cnt, Lit(Dur(time.Second)))), Bin("*", Call("float", Lit(Str("s"))), Call("duration", cnt, Lit(Dur(time.Second)))),
+		Bin("+", cnt, Bin("*", Bin("+", cnt, Lit(Int(10))), Call("duration", cnt, Lit(Dur(time.Second)))))} {
+		x.run(kase{n: n, entries: none, runs: orderRuns, pol: polTyped, family: "order"})
+	}
+
+	// ---- L: copy isolation for a nested lambda at every position a lambda reference can occur ----
+	lb := func() *N { return Lam(Bin(">", Call("count"), Lit(Int(1)))) }
+	li := func() *N { return Lam(Call("count")) }
+	ld := func() *N { return Lam(Call("duration", Call("count"), Lit(Dur(time.Second)))) }
+	lpos := []*N{
+		Un("!", lb()), Un("-", li()), Bin("+", Un("-", li()), a), Call("abs", Call("float", Un("-", li()))), Un("!", Un("!", lb())), Un("-", Un("-", li())),
+		Call("if", lb(), Lit(Int(1)), Lit(Int(2))), Call("if", Bin(">", a, Lit(Int(0))), li(), Lit(Int(0))), Call("if", Bin(">", a, Lit(Int(0))), Lit(Int(0)), li()),
+		Call("int", li()), Call("string", li()), Call("isPresent", li()), Call("min", Call("float", li()), Lit(Flt(2))), Call("duration", li(), Lit(Dur(time.Second))),
+		Call("strSubstring", Lit(Str("abc")), Lit(Int(0)), li()),
+		Lam(li()), Lam(Bin("+", li(), Call("count"))), Un("!", Lam(Un("!", lb()))), Lam(Un("-", li())), Bin("AND", lb(), Lam(Un("!", lb()))),
+		Lam(Call("spread", a)), Un("-", Lam(Call("sigma", a))), Bin("=~", Lam(Call("string", Call("count"))), Lit(Rex("1"))), Bin("!~", Lam(Call("string", Call("count"))), Lit(Rex("1"))),
+		Bin("*", ld(), Lit(Int(2))), Bin("*", Lit(Flt(0.5)), ld()), Bin("/", ld(), ld()), Bin("+", ld(), Lit(Dur(time.Second))),
+	}
+	for _, op := range []string{"+", "-", "*", "/", "%", "==", "!=", "<", "<=", ">", ">="} {
+		lpos = append(lpos, Bin(op, li(), Lit(Int(2))), Bin(op, Lit(Int(2)), li()), Bin(op, li(), a))
+	}
+	for _, op := range []string{"AND", "OR", "==", "!="} {
+		lpos = append(lpos, Bin(op, lb(), Lit(Bool(true))), Bin(op, Lit(Bool(false)), lb()), Bin(op, lb(), lb()))
+	}
+	la := scopes1("a", []V{Int(2), Flt(2.5), Int(0)})
+	for _, n := range lpos {
+		x.run(kase{n: n, entries: la, runs: withCopies(histories(2, 4, 'E')), family: "lambda-position"})
+		x.run(kase{n: n, entries: la, runs: [][]step{{{0, 'E', 0}, {0, 'E', 1}, {0, 'E', 2}, {0, 'Z', 1}, {0, 'E', 1}, {0, 'E', 0}, {0, 'E', 2}},
+			{{0, 0, 0}, {0, 0, 1}, {1, 0, 0}, {1, 0, 1}, {2, 'E', 1}}, {{0, 'T', 0}, {0, 'E', 1}, {0, 'B', 0}, {0, 'E', 0}, {0, 'E', 1}}}, pol: polTyped, family: "lambda-position"})
+	}
+
 	// ---- P: EvalPredicate / fillScope: fields, tags, time, missing, field+tag collision ----
 	fieldVals := []V{Int(0), Int(2), Flt(0.5), Flt(2), Str("a"), Str("b"), Bool(true), Bool(false)}
 	var points []entry
@@ -497,6 +580,33 @@ var convStrings = []string{
 	"9223372036854775807ns", "9223372036854775808ns", "106752d", "1_0s", "1hh", "1h-5m", "--1s", "0s", "00ms", "1 s", "0u", "9999w9999w",
 }
 
+// opTable is the operator x operand type table of the evaluator (the 61 entries of evaluationFuncs).
+type opEntry struct {
+	op   string
+	l, r byte
+}
+
+var opTable = func() []opEntry {
+	var t []opEntry
+	add := func(ops []string, pairs ...string) {
+		for _, op := range ops {
+			for _, p := range pairs {
+				t = append(t, opEntry{op, p[0], p[1]})
+			}
+		}
+	}
+	add([]string{"AND", "OR"}, "bb")
+	add([]string{"==", "!="}, "bb", "dd", "ff", "fi", "if", "ii", "ss")
+	add([]string{"<", "<=", ">", ">="}, "dd", "ff", "fi", "if", "ii", "ss")
+	add([]string{"=~", "!~"}, "sr")
+	add([]string{"+"}, "dd", "ff", "ii", "ss")
+	add([]string{"-"}, "dd", "ff", "ii")
+	add([]string{"*"}, "df", "di", "fd", "ff", "id", "ii")
+	add([]string{"/"}, "dd", "df", "di", "ff", "ii")
+	add([]string{"%"}, "ii")
+	return t
+}()
+
 // gen draws random ASTs over the model's alphabet.
 type gen struct{ r *rand.Rand }
 
@@ -511,7 +621,7 @@ func (g *gen) leaf() *N {
 	default:
 		for {
 			v := domain[g.r.Intn(len(domain))]
-			if v.T != 'm' && v.T != 't' {
+			if v.T != 'm' && v.T != 't' && !v.special() {
 				return Lit(v)
 			}
 		}
